@@ -693,8 +693,14 @@ void RowReordering::runRegionChoice(int cellInd) {
   } else {
     for (int i = 0; i < nbRegions(); ++i) {
       order_[i].push_back(cells_[cellInd]);
-      if (allocatedWidth(i) <= regions_[i].width()) {
-        // Only if there is enough space left in the row
+      bool allowed =
+          cellOrientationInRow(
+              placement_.cellRowPolarity(cells_[cellInd]),
+              placement_.rows()[regions_[i].row].orientation) !=
+          CellOrientation::INVALID;
+      if (allowed && allocatedWidth(i) <= regions_[i].width()) {
+        // Only if there is enough space left in the row and the cell polarity
+        // allows it
         ytopo_.updateCellPos(cells_[cellInd], placement_.rowY(regions_[i].row));
         runRegionChoice(cellInd - 1);
       }
